@@ -110,8 +110,9 @@ def rotation_equiv(qa, qb, cycles=1):
     if na == 0 or nb == 0:
         return False
     d1 = float(np.max(np.abs(qa / na - qb / nb)))
-    d2 = float(np.max(np.abs(qa / na + qb / nb)))
-    return min(d1, d2) <= 8 * EPS * max(1, cycles)
+    # renormalisation may change the last bits; it does not change the sign (q and -q are the same rotation, but the
+    # sign of the rotational error -- and chi^2 with translation-rotation cross terms -- depends on it: finding F5)
+    return d1 <= 8 * EPS * max(1, cycles)
 
 
 def same_sign_quat(qa, qb):
